@@ -112,18 +112,24 @@ Definition sent_lines (t : list ev) : list bytes :=
 Definition live (t : list ev) : bool :=
   negb (existsb (fun e => match e with Closed | Binary => true | _ => false end) t).
 
-(* --- safety: BEGIN only after OK (and after the descriptor answer) -------- *)
-(* how far the server's side of the condition has got *)
+(* --- safety: BEGIN only after an OK that still stands (and after the descriptor answer) -- *)
+(* how far the server's side of the condition has got.  The OK must STAND when
+   BEGIN is sent: a REJECTED line (recognised as in clause 5 below, by its command
+   word) withdraws whatever the server had granted - the OK and the answer to the
+   descriptor negotiation that followed it - so the progress starts again from
+   nothing; the answer to the negotiation is a line received while that OK stands. *)
 Inductive progress := NoOk | GotOk | Answered.
 
 Definition advance (p : progress) (e : ev) : progress :=
   match e with
   | Rx l =>
-      match p with
-      | NoOk => if ok_line l then GotOk else NoOk
-      | GotOk => if fd_answer_line l then Answered else GotOk
-      | Answered => Answered
-      end
+      if str_eqb (word l) w_REJECTED then NoOk
+      else
+        match p with
+        | NoOk => if ok_line l then GotOk else NoOk
+        | GotOk => if fd_answer_line l then Answered else GotOk
+        | Answered => Answered
+        end
   | _ => p
   end.
 
